@@ -1,0 +1,5 @@
+//go:build !verif
+
+package tasklane
+
+func verifAt(point string, lane int) {}
